@@ -126,9 +126,9 @@ PROPS["C15"] = {"units": [
 
 PROPS["C14"] = {"units": [
     plain_unit("regress", "vfilter", "^TestRegressC14", overlay="full"),
-    rapid_unit("delay-filter-free", "vfilter", "^TestC14DelayFilter$", 400, 16 * 3000, overlay="full"),
-    rapid_unit("router-delay-e2e", "vnete2e", "^TestC14RouterDelay$", 120, 16 * 800, overlay="plain", shrinktime="3s"),
-    rapid_unit("nested-router-delay", "vnete2e", "^TestC14NestedDelay$", 60, 16 * 500, overlay="plain", shrinktime="3s"),
+    rapid_unit("delay-filter-free", "vfilter", "^TestC14DelayFilter$", 400, 16 * 3000, overlay="full", crash_is_violation=True),
+    rapid_unit("router-delay-e2e", "vnete2e", "^TestC14RouterDelay$", 120, 16 * 800, overlay="plain", shrinktime="3s", crash_is_violation=True),
+    rapid_unit("nested-router-delay", "vnete2e", "^TestC14NestedDelay$", 60, 16 * 500, overlay="plain", shrinktime="3s", crash_is_violation=True),
     rapid_unit("delay-filter-schedules", "vfilter", "^TestC14DelaySchedules$", 300, 16 * 2500, overlay="full"),
 ]}
 
@@ -173,9 +173,9 @@ PROPS["C19"] = {"units": [
 
 PROPS["C01"] = {"units": [
     plain_unit("regress", "vnete2e", "^TestRegressC01", overlay="plain"),
-    rapid_unit("delivery", "vnete2e", "^TestC01Delivery$", 1000, 16 * 5000, overlay="plain"),
-    rapid_unit("schedules", "vnete2e", "^TestC01Schedules$", 150, 16 * 1200, overlay="full", tags=["verifsched"]),
-    rapid_unit("bare-schedules", "vnete2e", "^TestC01BareSchedules$", 300, 16 * 2000, overlay="full", tags=["verifsched"]),
-    rapid_unit("nat-port-pressure", "vnete2e", "^TestC01PortPressure$", 3, 16 * 8, overlay="plain", shrinktime="1s"),
-    rapid_unit("bounded-queue", "vnete2e", "^TestC01QueueCapacity$", 25, 16 * 300, overlay="plain", shrinktime="3s"),
+    rapid_unit("delivery", "vnete2e", "^TestC01Delivery$", 1000, 16 * 5000, overlay="plain", crash_is_violation=True),
+    rapid_unit("schedules", "vnete2e", "^TestC01Schedules$", 150, 16 * 1200, overlay="full", tags=["verifsched"], crash_is_violation=True),
+    rapid_unit("bare-schedules", "vnete2e", "^TestC01BareSchedules$", 300, 16 * 2000, overlay="full", tags=["verifsched"], crash_is_violation=True),
+    rapid_unit("nat-port-pressure", "vnete2e", "^TestC01PortPressure$", 3, 16 * 8, overlay="plain", shrinktime="1s", crash_is_violation=True),
+    rapid_unit("bounded-queue", "vnete2e", "^TestC01QueueCapacity$", 25, 16 * 300, overlay="plain", shrinktime="3s", crash_is_violation=True),
 ]}
